@@ -189,14 +189,29 @@ func ruleDecoderBounds(c *Ctx, r *Report, prefix string) {
 		// all guards dominate the copy loop (the first buffer.Write call)
 		if g != nil {
 			bw := c.Func("lzma", "buffer.Write")
-			okDom := false
+			fFront := c.Field("lzma", "buffer.front")
+			okDom, nMut := true, 0
 			for _, b := range theCtx.GB(fn) {
 				for _, ins := range b.Instrs {
-					if isCallTo(ins, bw) {
-						okDom = theCtx.Dom(g.iff.Block(), b)
+					// what changes the ring: buffer.Write, a copy into it, a store to its write index
+					mut := isCallTo(ins, bw)
+					if call, isC := ins.(*ssa.Call); isC {
+						if bi, isB := call.Call.Value.(*ssa.Builtin); isB && bi.Name() == "copy" {
+							mut = true
+						}
+					}
+					if _, isSt := storeToField(ins, fFront); isSt {
+						mut = true
+					}
+					if mut {
+						nMut++
+						if !(theCtx.Dom(g.iff.Block(), b) && b != g.iff.Block()) {
+							okDom = false
+						}
 					}
 				}
 			}
+			okDom = okDom && nMut > 0
 			r.Check(okDom, rule, "writeMatch-guards-dominate-copy:"+FnName(fn), c.InstrPos(g.iff), "the guards dominate the copy loop", "the copy loop of writeMatch is reachable without passing the guards")
 		}
 	}
